@@ -257,4 +257,47 @@ PROPS = {
         "assumptions": ["inputs <= 15 KB generated / <= 300 KB from tests/files"],
         "real": LZ_REAL, "stub": LZ_STUB,
     },
+
+    "C17": {
+        "engine": "xzsim",
+        "level": "fault_enumeration",
+        "rounds": {"quick": 3, "thorough": 25},
+        "level_text": "Real xz processes on a scratch directory with a link-time system-call shim. For each seed-chosen scene "
+                      "(compress / decompress, -T4, -k, -f over an existing target, --no-sync, --format=lzma, existing target "
+                      "without -f, sparse output, corrupt or truncated input, two files with one bad, -c, stdin to stdout) a "
+                      "fault-free run fixes the call history; then the single-fault space is enumerated completely: process "
+                      "death (_exit) before every call and after the last; a termination signal (INT/TERM/HUP/PIPE) before "
+                      "every call; for every (call, descriptor role, n-th) of the history each applicable errno (EIO, ENOSPC, "
+                      "EPIPE, EACCES, EBUSY, EPERM, EINVAL...), a short count, and EINTR with a signal; plus seeded multi-fault "
+                      "plans. Oracles on the directory afterwards and on the recorded call history: the source is intact or a "
+                      "complete valid target exists (always); a self-terminating xz never leaves a partial target; a failing "
+                      "data-path call => non-zero exit, source intact, target removed; metadata/unlink failures leave a complete "
+                      "target; unlink(source) only after all target bytes were written, fchmod issued, fsync(target) and "
+                      "fsync(directory) returned 0 (unless --no-sync) and close(target) returned 0; --keep/-c never remove the "
+                      "source; an existing target is never overwritten without -f; benign short counts change nothing.",
+        "level_note": "Complete for single faults of the chosen scenes (all 16 scene kinds, 3 content/size/schedule variants each per quick run, 25 in thorough). The kernel file system is real: power-loss semantics are judged from the call "
+                      "history (fsync before unlink), not simulated. Targets are validated with Python's own lzma module.",
+        "rule": "One evaluation = one xz run with one fault plan. distinct_nontrivial = distinct (scene, call, descriptor role, "
+                "fault kind) tuples among faults that actually fired.",
+        "assumptions": ["EINTR is injected only where a handled signal is unblocked and only on read/write/poll (xz blocks its "
+                        "signals around open/fsync/close/unlink)", "tmpfs scratch directory under /dev/shm"],
+    },
+    "C18": {
+        "engine": "xzsim",
+        "level": "exploration",
+        "runs": {"quick": [12000, 2500], "thorough": [150000, 30000]},
+        "level_text": "xz -dc / -d / -t, xzdec and lzmadec run as real processes under the system-call shim and the deterministic "
+                      "thread scheduler on valid, corrupted, truncated and concatenated inputs (texts, random data, zero runs "
+                      "that start and end around the 8 KiB I/O buffer for the sparse-file path); sinks: pipe, new file via '>', "
+                      "existing file opened at an offset, append mode; -T1..4; --no-sparse; --single-stream; with benign I/O "
+                      "perturbation from the shim (short reads and writes at seeded calls). Oracle: a direct library decode done "
+                      "by the checker (libdecode.c: lzma_code() on the whole file): standard output / the created file equals "
+                      "the library's bytes (everything before an error, nothing after), exact final file size, a file is created "
+                      "only when the library reports success, exit status fails exactly when the library reports an error "
+                      "(unsupported check = warning). Plus round trips xz -z | library decode for seeded option sets.",
+        "level_note": "The library reference is single-threaded lzma_auto_decoder/lzma_alone_decoder from the same tree.",
+        "rule": "One evaluation = one tool run. distinct_nontrivial = distinct (tool, mode, sink, library status, content class, "
+                "number of perturbations) tuples plus distinct round-trip option shapes.",
+        "assumptions": ["inputs <= 400 KB"],
+    },
 }
